@@ -159,7 +159,24 @@ def run_render(rep, ctx, label, observers, n_quick, n_thorough, corr_fraction=1.
                     if n_big <= 2:
                         rep.violation('%s-big-%d' % (label, n_big), {'what': fails[:4], 'page': 'render_checks.big_page(%d, %d)' % (size, variant),
                                                                      'identical': a == b, 'max_spacers': h.MAX_SPACERS})
-        rep.obligation('observer %s: pages beyond the spacer cap (%s elements)' % (label, [s for s, _ in sizes]), n_big == 0)
+        # pages of more than 10 000 tokens in which a block identical to its neighbours is removed / added (k copies vs k-1)
+        for nrows in ((4200,) if tier == 'quick' else (4200, 9000)):
+            rows = ['<p>para %d text</p>' % i for i in range(nrows)]
+            notice = '<p class="notice">Important notice text</p>'
+            pa = ''.join(rows[:nrows // 2]) + notice * 3 + ''.join(rows[nrows // 2:])
+            pb = ''.join(rows[:nrows // 2]) + notice * 2 + ''.join(rows[nrows // 2:])
+            for a, b in ((pa, pb), (pb, pa)):
+                r = rc.render(a, b, include=include)
+                rep.count(('big-repeat', nrows, a is pa), True)
+                fails = []
+                for name, obs in observers:
+                    fails += obs(a, b, r)
+                if fails:
+                    n_big += 1
+                    if n_big <= 2:
+                        rep.violation('%s-big-repeat-%d' % (label, n_big), {'what': fails[:4], 'page': '%d paragraphs with a run of 3 (2) identical notices in the middle' % nrows,
+                                                                            'a_text': a[:300] + ' ... ' + a[len(a) // 2 - 200:len(a) // 2 + 300], 'direction': 'removed' if a is pa else 'added'})
+        rep.obligation('observer %s: pages beyond the spacer cap (%s elements) and beyond 10 000 tokens' % (label, [s for s, _ in sizes]), n_big == 0)
     dist['small_scope_exhaustive_pairs'] = n_scope
     rep.extra['input_distribution'] = dist
     rep.sample({'a_text': docs[0][0][:400], 'b_text': docs[0][1][:400]})
